@@ -7,6 +7,7 @@ import (
 	"errors"
 	"net/http"
 	"net/url"
+	"strings"
 
 	goa "goa.design/goa/v3/pkg"
 )
@@ -107,4 +108,27 @@ func VerifC20_MuxVarsFromMiddleware() {
 	verifRaceFree("muxer-middleware")
 	verifAssert("middleware-sees-vars-of-own-request", mv0["x"] == x && mv1["y"] == y && len(mv0) == 1 && len(mv1) == 1)
 	verifAssert("handler-sees-vars-of-own-request", hv0["x"] == x && hv1["y"] == y)
+}
+
+// VerifC20_TextDecoderBytes: the bytes decoded for one request are still that
+// request's bytes after the next body has been decoded (no buffer shared
+// between requests survives in a payload).
+func VerifC20_TextDecoderBytes() {
+	b0, b1 := nondetString("b0", 2), nondetString("b1", 2)
+	ok := true
+	for rep := 0; rep < verifNativeRepeat() && ok; rep++ {
+		var o0, o1 []byte
+		e0 := newTextDecoder(strings.NewReader(b0), "text/plain").Decode(&o0)
+		e1 := newTextDecoder(strings.NewReader(b1), "text/plain").Decode(&o1)
+		ok = e0 == nil && e1 == nil && string(o0) == b0 && string(o1) == b1
+	}
+	verifAssert("decoded-bytes-stay-those-of-their-own-request", ok)
+	var s0 string
+	var p0, p1 []byte
+	verifConcurrently(
+		func() { newTextDecoder(strings.NewReader(b0), "text/plain").Decode(&p0) },
+		func() { newTextDecoder(strings.NewReader(b1), "text/plain").Decode(&p1); newTextDecoder(strings.NewReader(b1), "text/html").Decode(&s0) },
+	)
+	verifRaceFree("text-decoder")
+	verifAssert("concurrent-decodes-keep-their-own-bytes", string(p0) == b0 && string(p1) == b1 && s0 == b1)
 }
